@@ -23,6 +23,8 @@ type (
 		ID    string     `json:"id"`
 		Procs []string   `json:"procs"` // scenario ids, one per process
 		Order [][]any    `json:"order"` // [process index (1-based), gate name]
+		// Serial: a gate is passed only while every other process waits at a gate or has finished (serial.go)
+		Serial bool `json:"serial,omitempty"`
 	}
 	procSched struct {
 		arrive  chan string
@@ -64,6 +66,9 @@ func gatedEnc(ctx context.Context, w http.ResponseWriter) goahttp.Encoder {
 }
 
 func (rt *Runtime) runSchedule(s *Schedule, byID map[string]*Scenario) map[string]any {
+	if s.Serial {
+		return rt.runScheduleSerial(s, byID)
+	}
 	k := len(s.Procs)
 	ps := make([]*procSched, k)
 	results := make([]map[string]any, k)
@@ -90,7 +95,7 @@ func (rt *Runtime) runSchedule(s *Schedule, byID map[string]*Scenario) map[strin
 				mismatch = append(mismatch, s.Procs[p]+": at "+got+" instead of "+want)
 			}
 			ps[p].release <- struct{}{}
-		case <-time.After(3 * time.Second):
+		case <-time.After(gateWait):
 			mismatch = append(mismatch, s.Procs[p]+": never reached "+want)
 		}
 	}
